@@ -117,6 +117,7 @@ inductive DirKind where
   | pyOtherwise
   | pyStrip (e : Option Expr)
   | pyDef (name : Str) (params : List (Str × Option Expr))   -- positional parameters, optional defaults
+  | pyMatch (name : Str) (once : Bool)   -- `py:match` with a one-step element-name path; hint `match_once`
   | i18nDomain (d : Str)
   | i18nComment (c : Str)
   | i18nCtxt (c : Str)
@@ -179,6 +180,14 @@ def readDirs (h ph : Heap) : Ref → Option (List Dir)
   | .priv a => match ph[a]? with | some (.dirs l) => some l | _ => none
 
 
+/-- an entry of `Context._match_templates`: `(test, path, list(stream), hints, namespaces, directives)` -/
+structure MatchT where
+  name : Str
+  body : List TEv
+  once : Bool
+  rest : List Dir
+  deriving DecidableEq, Repr, Inhabited
+
 /-! ## run-time values -/
 
 /-- what `py:def` stores in the context: the function closes over the copy of its sub-stream and the
@@ -238,6 +247,7 @@ structure Choice where
 structure Ctx where
   frames : List Frame        -- head = `frames[0]`, the innermost scope (`push = appendleft`)
   choice : List Choice       -- head = `_choice_stack[-1]`
+  mts : List MatchT := []      -- `_match_templates`, in registration order
   deriving DecidableEq, Repr, Inhabited
 
 def sDefined : Str := ['d', 'e', 'f', 'i', 'n', 'e', 'd']
@@ -247,7 +257,7 @@ def sValueOf : Str := ['v', 'a', 'l', 'u', 'e', '_', 'o', 'f']
 def Ctx.new (data : Frame) : Ctx :=
   let d1 := if (Frame.get? data sDefined).isSome then data else data ++ [(sDefined, .opaque sDefined)]
   let d2 := if (Frame.get? d1 sValueOf).isSome then d1 else d1 ++ [(sValueOf, .opaque sValueOf)]
-  { frames := [d2], choice := [] }
+  { frames := [d2], choice := [], mts := [] }
 
 /-- `Context.get` / `_find`: innermost frame that has the key -/
 def lookupFrames : List Frame → Str → Option Val
